@@ -95,6 +95,8 @@ func TestVerifC18Services(t *testing.T) {
 	os.WriteFile(filepath.Join(up.dir, "2023-01-01", "0.5.json"), chartLike("upload-bucket"), 0o644)
 	os.WriteFile(filepath.Join(merged.dir, "2023-01-01.json"), chartLike("merge-bucket"), 0o644)
 	os.WriteFile(filepath.Join(root, "charted-sibling.json"), chartLike("prefix-sibling"), 0o644)
+	os.WriteFile(filepath.Join(root, "secret_2023-01-08.json"), chartLike("storage-root-aggregate"), 0o644)
+	os.WriteFile(filepath.Join(outer, "secret_2023-01-08.json"), chartLike("one-level-up-aggregate"), 0o644)
 
 	cfgPath := filepath.Join(base, "config.json")
 	cb, _ := json.Marshal(c12Cfg)
@@ -118,7 +120,9 @@ func TestVerifC18Services(t *testing.T) {
 
 	dotdots := []string{"..", "%2e%2e", "%2E%2E", ".%2e", "%2e.", "%252e%252e", "...", ". .", "..;", "%c0%ae%c0%ae"}
 	seps := []string{"/", "%2f", "%2F", "%5c", "\\", "%252f", "//", "/./"}
-	tails := []string{"secret", "uploaded/2023-01-01/0.5", "merged/2023-01-01", "charted-sibling", "charted/2023-01-02", "etc/passwd", "2023-01-02"}
+	tails := []string{"secret", "uploaded/2023-01-01/0.5", "merged/2023-01-01", "charted-sibling", "charted/2023-01-02", "etc/passwd", "2023-01-02",
+		// (aggregate chart names are two dates joined by an underscore)
+		"secret_2023-01-08", "2023-01-02_secret", "secret_secret", "uploaded/2023-01-01/0.5_2023-01-08"}
 	var paths []string
 	for _, p := range []string{"2023-01-02", "2023-01-02_2023-01-08", "2023-01-03", "nothing", "a/b", "a%2fb", ".", "..", "%2e", "%2e%2e", "%00", "a%00b", "/etc/passwd", "%2fetc%2fpasswd", "%2f%2fetc%2fpasswd", "2023-01-02/../../secret", "2023-01-02%2f..%2f..%2fsecret", "....//secret", "..%00/secret", "%7e/secret", "~/secret"} {
 		paths = append(paths, p)
@@ -215,7 +219,7 @@ func TestVerifC18Services(t *testing.T) {
 		rel, _ := filepath.Rel(base, pth)
 		switch {
 		case strings.HasPrefix(rel, filepath.Join("outer", "storage", "uploaded")+string(filepath.Separator)), strings.HasPrefix(rel, filepath.Join("outer", "storage", "merged")+string(filepath.Separator)), strings.HasPrefix(rel, filepath.Join("outer", "storage", "charted")+string(filepath.Separator)):
-		case rel == "secret.json", rel == "config.json", rel == filepath.Join("outer", "secret.json"), rel == filepath.Join("outer", "storage", "secret.json"), rel == filepath.Join("outer", "storage", "charted-sibling.json"):
+		case rel == "secret.json", rel == "config.json", rel == filepath.Join("outer", "secret.json"), rel == filepath.Join("outer", "storage", "secret.json"), rel == filepath.Join("outer", "storage", "charted-sibling.json"), rel == filepath.Join("outer", "storage", "secret_2023-01-08.json"), rel == filepath.Join("outer", "secret_2023-01-08.json"):
 		default:
 			res.Violate("file-created-outside-buckets", rel, nil)
 		}
